@@ -87,6 +87,8 @@ def obligations(tier, seed):
         variants = [('TextLines', False), ('Buffer', True)] if tier == 'quick' else [('TextLines', False), ('TextLines', True), ('Buffer', False), ('Buffer', True)]
         for inp, pinfo in variants:
             for n in ((0, 2, 3) if tier == 'quick' else range(0, maxn + 1)):
+                if tier == 'quick' and nm == 'meta_all' and n == 3:
+                    continue
                 pre = ' and '.join(f'c{i} < 128' for i in range(n)) if nm.startswith('meta') else ''
                 spec = {'grammar': nm, 'program': nm, 'input': inp, 'parseinfo': pinfo, 'n': n, **gs}
                 obs.append(Ob(name=f'B_{nm}_{inp}_{"pi" if pinfo else "np"}_L{n}', factory='vt.props.c08b:make_errors', spec=spec,
